@@ -4,7 +4,7 @@
    checked per input by the document-level observer of the harness. *)
 From Coq Require Import List NArith Arith Bool String.
 From WMD Require Import Gen.Tables Lib.Str Lib.PyChars Lib.Escape Lib.Difflib Model.RenderTokens Model.RenderMerge Model.RenderLabelled
-     Proofs.DifflibProofs Proofs.MergeProofs Proofs.TokenProofs Proofs.AssembleProofs Proofs.RenderProofs.
+     Proofs.DifflibProofs Proofs.MergeProofs Proofs.TokenProofs Proofs.AssembleProofs Proofs.RenderProofs Proofs.TextProofs Proofs.ViewTextProofs.
 Import ListNotations.
 Open Scope N_scope.
 
@@ -65,6 +65,21 @@ Theorem C01_all_same_as_alone : forall old_root new_root rules cap,
    render_string (assemble_diff MInsertions old new ops),
    render_string (assemble_diff MDeletions old new ops)).
 Proof. reflexivity. Qed.
+
+(* stated on the TEXT: the text chunks of the insertions (deletions) view - everything that is not a tag, a
+   marker or a synthetic tag - carry, in order, exactly the non-whitespace characters of every text and tail of
+   the new (old) page's element tree (in the escaped spelling, an injective recoding: C03_escaped_text_faithful):
+   nothing dropped, duplicated, invented; for all element trees, rule sets and spacer caps *)
+Theorem C01_page_text_is_its_stream : forall root,
+  chunks_text (map chunk_str (flatten_root root)) = page_shown_text root.
+Proof. exact page_shown_text_is_stream. Qed.
+
+Theorem C01_view_text_is_page_text : forall old_root new_root rules cap (new_side : bool),
+  let old := prepare old_root cap in
+  let new := prepare new_root cap in
+  chunks_text (srcs (view_l new_side old new (token_opcodes rules old new))) =
+  page_shown_text (if new_side then new_root else old_root).
+Proof. exact view_text_is_page_text. Qed.
 
 (* regenerated tables the theorems depend on *)
 Theorem C01_tables :
